@@ -101,6 +101,14 @@ pub fn c02(r: &mut Report) {
         corpus: true,
     };
     run_plan(r, &plan);
+    // observer methods outside the workload language (scoped threads, async tasks)
+    let kinds = super::observers::kinds();
+    let accs = oracle::parallel(kinds.len(), oracle::workers().min(kinds.len()), |i, acc: &mut Acc| super::observers::check(kinds[i], acc));
+    for a in accs {
+        a.merge_into(r);
+    }
+    r.rule.push_str("; observer scenarios (ScopedJoinHandle / future::JoinHandle / future::AbortHandle ::is_finished after a store the child reads): all four sequentially consistent outcomes must be produced by the completely enumerated tree");
+
 }
 
 pub fn c03(r: &mut Report) {
